@@ -66,10 +66,12 @@ def run(ctx):
     ctx.rule("R02.1", "Point-field coverage of __imul__/__getitem__/__copy__/__eq__")
     ctx.rule("R02.2", "orientation: signed extent negated iff det < 0")
     ctx.rule("R02.3", "Point *= Matrix")
+    ctx.rule("R02.8", "a subpath view is transformed in the space its path is drawn in")
     ctx.rule("R02.4", "lazy transform discipline: post-multiply, apply-then-reset, reify algebra")
     ctx.rule("R02.5", "transformed decomposition by multiplication")
     ctx.rule("R02.6", "coupled-field invariant of Arc axes")
     ctx.rule("R02.7", "each Point field of a segment owns its own Point object")
+    subpath_space(ctx)
     coverage(ctx)
     orientation(ctx)
     point_imul(ctx)
@@ -480,3 +482,16 @@ def distinct_points(ctx):
             ctx.ob("R02.7", "%s.%s[field objects]" % (cname, mname), not bad, "; ".join(bad) or "%d point-field assignments, each its own object" % len(assigns), fn.lineno,
                    "two Point fields of one segment share an object: an in-place matrix multiplication (arc *= M, path.reify()) maps that point more than once")
     ctx.need(n >= 6, "R02.7", "too few field-assigning methods found (%d)" % n)
+
+
+def subpath_space(ctx):
+    """`subpath *= M` multiplies the stored segments of the backing path.  A path may carry a pending transform T (lazy
+    transforms, R02.4); the geometry drawn is T(p).  Multiplying the stored points gives T(M(p)), not M(T(p)): the view has to
+    reify the path first, or conjugate M with T, or refuse - in any case it has to look at the path's transform."""
+    fn = ctx.fn("Subpath.__imul__", "R02.8")
+    consults = any(isinstance(n, ast.Attribute) and n.attr == "transform" and attr_chain(n) and attr_chain(n)[:2] == ["self", "_path"] for n in ast.walk(fn)) \
+        or any(isinstance(c, ast.Call) and isinstance(c.func, ast.Attribute) and c.func.attr == "reify" for c in ast.walk(fn))
+    applies = any(isinstance(n, ast.AugAssign) and isinstance(n.op, ast.Mult) for n in ast.walk(fn))
+    ctx.need(applies, "R02.8", "Subpath.__imul__: multiplication of the segments not found")
+    ctx.ob("R02.8", "Subpath.__imul__[pending transform of the path]", consults, "the function never reads self._path.transform", fn.lineno,
+           "with a pending path transform T the drawn geometry becomes T(M(p)) instead of M(T(p))")
